@@ -649,6 +649,15 @@ def known_resistance_rule(ctx, rule: str):
              "the cassette label %r must resolve to %r as it does at the pinned commit (the table gives %r): a directory plasmid "
              "carrying it is listed by the registry but its lookup raises" % (label, name, table.get(label)), fr.where())
     r.floor(rule + ".known-resistance.table", len(CONFIRMED_CASSETTE_LABELS))
+    # what the function returns is decided by evaluating it (kernel K24); the provenance rule that reads the code's shape
+    # is consulted only when the evaluation has no model for something the function does
+    from .kernels4 import k24_known_resistance
+
+    try:
+        k24_known_resistance(ctx, rule + ".known-resistance")
+        return
+    except AnalysisError as exc:
+        k24_error = exc
     bad = table_value_returns(p, fr, tname)
     if not _terminates(fr.node.body):
         bad.append("line %d: the function can fall off its end (returns None) instead of raising" % fr.node.body[-1].lineno)
